@@ -67,6 +67,21 @@ def gen(ctx):
                 scen.append({"id": "first-%s-%s-%d-%s" % (c, s, pad, "+".join(hold)), "kind": "session", "client": c, "server": s,
                              "cpad": pad, "spad": pad, "script": sc})
                 k += 2
+    # a side writes its last bytes and closes at once: the peer reads all of them before the end of the stream, also when the
+    # last bytes and the end arrive in ONE Read of the underlying connection and the application reads in small pieces
+    kf = 0
+    for c, s in combos:
+        for d in ("c2s", "s2c"):
+            for together, rbuf in ((False, [4096]), (True, [16]), (True, [70000])) if not quick else ((True, [16]),):
+                sc = {"cw": [40], "sw": [33], "c2s": {"mode": "whole"}, "s2c": {"mode": "whole"}, "rbuf": rbuf, "lockstep": True, "quiesce_each": True,
+                      "final": {"d": d, "n": [3000, 20000][kf % 2], "together": together}}
+                scen.append({"id": "final%d" % kf, "kind": "session", "client": c, "server": s, "cpad": 100, "spad": 50, "script": sc}); kf += 1
+    # reader and writer of one endpoint provably overlap (see harness/stream: during_write)
+    for k2, (c, s) in enumerate(combos * (2 if quick else 8)):
+        OV = k2 // 3
+        sc = {"cw": [40, 1448, 10], "sw": [33, 1448, 7], "c2s": {"mode": "whole", "during_write": OV % 2 == 0}, "s2c": {"mode": "whole", "during_write": OV % 2 == 1},
+              "rbuf": [4096], "lockstep": False, "quiesce_each": False}
+        scen.append({"id": "overlap%d" % k2, "kind": "session", "client": c, "server": s, "cpad": 100, "spad": 50, "script": sc})
     # rejection: every magic bit, padlen boundaries
     j = 0
     for victim in ("client", "server"):
